@@ -30,9 +30,13 @@ def mk(text, coq, t, op, *kids):
 
 
 class Gen:
-    def __init__(self, rng, cols, max_depth=3, allow_div=True, obj=None, lib=False):
+    def __init__(self, rng, cols, max_depth=3, allow_div=True, obj=None, lib=False, unary_chains=0.0):
         self.rng = rng
         self.lib = lib              # opt-in (bld-link): also the C18 library functions Eval.apply_func carries (typed ones)
+        # opt-in (fix-E): probability that a bool node is a run of 2-4 directly nested NULL-aware unary operators
+        # (NOT / IS NULL / IS NOT NULL, mostly NOT) over a NON-CONSTANT bool operand (bool column, comparison, AND/OR, ...);
+        # no extra rng draw when 0, so the streams of the other users of this generator do not move
+        self.unary_chains = unary_chains
         self.cols = cols            # [(name, type)]
         self.max_depth = max_depth
         self.bytype = {}
@@ -235,7 +239,34 @@ class Gen:
             return self.expr(T_STR, d), self.expr(T_STR, d)
         return self.expr(T_DATE, d), self.expr(T_DATE, d)
 
+    def unary_chain(self, d, length=None, base=None):
+        """A run of directly nested NULL-aware unary operators over a non-constant bool-typed operand: NOT NOT x, NOT (NOT (NOT x)),
+        NOT ((NOT x) IS NULL), ... - every operator of the run maps NULL to a non-NULL value, so no two of them cancel."""
+        if base is None:
+            k = self.rng.random()
+            if T_BOOL in self.bytype and k < 0.4:
+                base = self.col(T_BOOL)
+            else:
+                for _ in range(6):
+                    base = self.gen_bool(max(d, 1) - 1)
+                    if base.cols:
+                        break
+        e = base
+        n = length or self.rng.choice([2, 2, 2, 3, 3, 4])
+        for i in range(n):
+            k = self.rng.random()
+            if k < 0.8:
+                # `NOT NOT x` (no parentheses between the operators) and `NOT (NOT x)` are both spelled
+                txt = f'NOT {e.text[1:-1]}' if (e.text.startswith('(NOT ') and self.rng.random() < 0.5) else f'NOT {e.text}'
+                e = mk(f'({txt})', f'(EUnary UNot {e.coq})', T_BOOL, f'UNot[{e.type}]', e)
+            else:
+                kind, tag = ('IS NULL', 'UIsNull') if k < 0.9 else ('IS NOT NULL', 'UIsNotNull')
+                e = mk(f'({e.text} {kind})', f'(EUnary {tag} {e.coq})', T_BOOL, tag, e)
+        return E(e.text, e.coq, e.type, list(e.ops) + [f'unary-chain/{n}'], e.depth, e.cols)
+
     def gen_bool(self, d):
+        if self.unary_chains and self.rng.random() < self.unary_chains:
+            return self.unary_chain(d)
         r = self.rng.random()
         if self.obj and r < 0.12:
             sym, tag = self.rng.choice([('=', 'BEq'), ('!=', 'BNe'), ('<', 'BLt'), ('<=', 'BLe'), ('>', 'BGt'), ('>=', 'BGe')])
